@@ -150,7 +150,7 @@ fn lock_case(seed: u64, lean: &mut Lean, hist: &mut std::collections::BTreeMap<S
     let mut locked_attempts = 0;
     let mut second_open_while_live = false;
     for _ in 0..nops {
-        match r.below(6) {
+        match r.below(7) {
             0 | 1 => {
                 if !handles.is_empty() {
                     if locked_attempts >= 2 { continue; } // each refused attempt sleeps 200 ms in try_acquire
@@ -189,6 +189,16 @@ fn lock_case(seed: u64, lean: &mut Lean, hist: &mut std::collections::BTreeMap<S
                 ops.push("c");
                 *hist.entry("clone".into()).or_insert(0) += 1;
             }
+            6 => {
+                // leave background work pending (no worker threads run it): a sealed journal whose
+                // watermarks hold keyspace handles, and / or a queued flush task
+                let Some(h) = handles.first() else { continue; };
+                let db: Database = match h { Handle::Db(d) => d.clone(), Handle::Tx(t) => t.inner().clone(), Handle::Ks(_) => continue };
+                let ks = db.keyspace("a", KeyspaceCreateOptions::default).unwrap();
+                ks.insert(format!("w{}", r.below(100)), "v").unwrap();
+                if r.chance(2, 3) { fjall::verif::verif_rotate_journal(&db).unwrap(); *hist.entry("pending:sealed-journal".into()).or_insert(0) += 1; }
+                if r.chance(1, 2) { let _ = ks.rotate_memtable(); *hist.entry("pending:flush-task".into()).or_insert(0) += 1; }
+            }
             _ => {
                 if handles.is_empty() { continue; }
                 let idx = r.below(handles.len() as u64) as usize;
@@ -208,7 +218,7 @@ fn lock_case(seed: u64, lean: &mut Lean, hist: &mut std::collections::BTreeMap<S
     drop(res);
     let model = lean.ask(&format!("lock 464a4c03 1 1 {}", ops.join(" ")));
     let model_classes: Vec<String> = model.split(' ').map(|s| s.trim_end_matches("+w").to_string()).collect();
-    if model_classes != real_out {
+    if !no_model() && model_classes != real_out {
         fails.push(Failure { kind: "model-vs-impl", detail: format!("ops {:?}: model open results {:?} vs real {:?}", ops, model_classes, real_out) });
     }
     // oracle: an open succeeds iff no handle of any kind is alive
